@@ -38,6 +38,7 @@ def setup(ctx):
         "an *empty* allow list ([]) and IPv4-mapped IPv6 peers against IPv4 entries are grey and only counted",
         "entries with host bits set may either prevent start-up or be read as the enclosing network",
     ]
+    ctx.require("monitor", "effect_probes", 100)
     ctx.require("monitor", "decisions_object", 2000)
     ctx.require("monitor", "decisions_wired", 1000)
     ctx.require("monitor", "refusals_seen", 200)
@@ -235,6 +236,40 @@ def run_object(ctx, cfg, peers):
         close_loop(loop)
 
 
+def run_effect(ctx, cfg, peers):
+    """What is carried out, not only what is answered: behind the access-control component a refused peer's
+    request - Gemini, Titan upload or Titan delete - reaches no handler at all; an admitted one reaches exactly one."""
+    from nauyaca.server.middleware import AccessControl, AccessControlConfig, MiddlewareChain
+
+    from vf.sim import effect_probe
+
+    allow, deny, malformed, hostbits = model_lists(cfg)
+    if malformed or hostbits or cfg["allow"] == []:
+        return
+    decisive = [(p, pos) for p, pos in peers if pos != "v4-mapped" and cidr.parse_addr(p) is not None][:6]
+    if not decisive:
+        return
+    reqs = [b"titan://h/f.txt;size=3;mime=text/plain\r\nabc", b"titan://h/f.txt;size=0\r\n", b"gemini://h/x\r\n"]
+    try:
+        rows = effect_probe(lambda: MiddlewareChain([AccessControl(AccessControlConfig(allow_list=cfg["allow"], deny_list=cfg["deny"], default_allow=cfg["default_allow"]))]),
+                            [(p, 40000) for p, _ in decisive for _r in reqs], reqs * len(decisive))
+    except ValueError:
+        return
+    for (peername, req, status, n_h, n_u, closing) in rows:
+        peer = peername[0]
+        want = cidr.decide(allow, deny, cfg["default_allow"], peer)
+        ctx.count("monitor", "effect_probes")
+        kind = "titan-delete" if b";size=0" in req else ("titan-upload" if req.startswith(b"titan") else "gemini")
+        wit = {"config": cfg, "peer": peer, "request": req[:60], "status": status, "handler_entries": n_h, "upload_entries": n_u, "model_admits": want}
+        if not want and (n_h or n_u):
+            ctx.violation(f"refused-but-carried-out:request={kind}", f"peer {peer} is refused by the policy (answer {status}) yet its request reached a handler", wit)
+        elif not want and status != 53:
+            ctx.violation(f"admitted-wrongly:via=protocol:request={kind}", f"peer {peer} must be refused with 53, got {status}", wit)
+        elif want and (n_h + n_u) != 1:
+            ctx.violation(f"admitted-but-not-carried-out:request={kind}", f"peer {peer} is admitted by the policy but handler entries = {n_h + n_u} (status {status})", wit)
+        ctx.case(("effect", kind, want, status, n_h + n_u), True, sample=wit)
+
+
 def write_toml(path, cfg, docroot):
     import tomli_w
 
@@ -357,6 +392,8 @@ def run(ctx):
             run_object(ctx, cfg, peers)
             if i % 3 == 0 or i >= n:
                 run_wired(ctx, cfg, peers[:: 2 if ctx.quick() else 1], base)
+            if i % 5 == 1 or i >= n:
+                run_effect(ctx, cfg, peers)
             ctx.count("shape", shape(cfg))
         if ctx.shard == 0:
             run_live(ctx, base)
